@@ -3,6 +3,7 @@
 require that it reports a violation naming the mutated instance.  usage: run.py [id-substring ...] [--build]
 
 --build additionally verifies that the mutant still compiles and passes the repository's pinned test suite.
+--benign runs benign.json instead: behaviour-preserving edits on which every named check must stay silent (rc 0).
 The scratch copy lives under /var/tmp and is removed at the end.
 """
 import json, os, shutil, subprocess, sys, tempfile
@@ -14,7 +15,8 @@ VERIF = os.path.dirname(HERE)
 def main():
     args = [a for a in sys.argv[1:] if not a.startswith("--")]
     build = "--build" in sys.argv
-    muts = json.load(open(os.path.join(HERE, "mutants.json")))
+    benign = "--benign" in sys.argv
+    muts = json.load(open(os.path.join(HERE, "benign.json" if benign else "mutants.json")))
     if args:
         muts = [m for m in muts if any(a in m["id"] for a in args)]
     scratch = tempfile.mkdtemp(prefix="cgv-mut.", dir="/var/tmp")
@@ -40,6 +42,18 @@ def main():
                                        stdout=subprocess.PIPE, stderr=subprocess.STDOUT, text=True)
                     status.append("suite:%s" % ("pass" if p.returncode == 0 else "FAIL"))
                 env = dict(os.environ, CGV_REPO=repo, CGV_WORK=os.path.join(scratch, "work"), CGV_EVIDENCE_DIR=os.path.join(scratch, "evidence"))
+                if benign:
+                    bad = []
+                    for c in m["checks"]:
+                        p = subprocess.run([os.path.join(VERIF, "cgv"), c, m.get("tier", "quick")], env=env, cwd=VERIF,
+                                           stdout=subprocess.PIPE, stderr=subprocess.STDOUT, text=True)
+                        if p.returncode != 0 or "VIOLATION" in p.stdout:
+                            lines = [l for l in p.stdout.splitlines() if "VIOLATION" in l or "CHECK-BROKEN" in l or "error" in l.lower()]
+                            bad.append("%s rc=%d %s" % (c, p.returncode, " | ".join(l[:260] for l in lines[:3])))
+                    status.insert(0, "SILENT" if not bad else "ALARM")
+                    status.extend(bad)
+                    results.append((m["id"], " ".join(status)))
+                    continue
                 p = subprocess.run([os.path.join(VERIF, "cgv"), m["property"], m.get("tier", "quick")], env=env, cwd=VERIF,
                                    stdout=subprocess.PIPE, stderr=subprocess.STDOUT, text=True)
                 out = p.stdout
@@ -62,7 +76,7 @@ def main():
     ok = True
     for i, r in results:
         print("%-40s %s" % (i, r))
-        if not r.startswith("CAUGHT "):
+        if not (r.startswith("CAUGHT ") or r.startswith("SILENT")):
             ok = False
     # evidence files were rewritten against the scratch copy: the caller should re-run the checks on /repo
     return 0 if ok else 1
